@@ -67,6 +67,7 @@ func cfgS2(prop string, seed uint64, tier string) *RunCfg {
 		per = 3 + r.Intn(8)
 	}
 	c.Knobs["writers"] = nw
+	c.Slow = slowClasses(r, "handleRequest#0", "handleRequest#1", "server:")
 	c.Knobs["observers"] = r.Intn(3)
 	for w := 0; w < nw; w++ {
 		for i := 0; i < per; i++ {
@@ -146,7 +147,7 @@ func runS2(e *Env, cfg *RunCfg) {
 			}
 			if s.busy[w] == nil && len(s.queue[w]) > 0 {
 				w := w
-				acts = append(acts, simrt.Action{Key: fmt.Sprintf("op:w%d", w), Kind: "op", Weight: 2, Do: func() { s.issue(w) }})
+				acts = append(acts, simrt.Action{Key: fmt.Sprintf("op:w%d", w), Kind: "op", Weight: 20, Do: func() { s.issue(w) }})
 			}
 		}
 		return acts
